@@ -116,7 +116,8 @@ func k17Shape(src string) (string, bool) {
 	return "", false
 }
 
-var k18Re = regexp.MustCompile(`&(?:` + strings.Join(legacyNames, "|") + `)(?:&semi;|&#59;|&#[xX]3[bB];|&#[0-9]+;?|&#[xX][0-9a-fA-F]+;?|&[A-Za-z][A-Za-z0-9]*;)`)
+var k18Re = regexp.MustCompile(`&(?:` + strings.Join(legacyNames, "|") + `)(?:&semi;|&#59;|&#[xX]3[bB];|&#[0-9]+;?|&#[xX][0-9a-fA-F]+;?|&[A-Za-z][A-Za-z0-9]*;)|&[A-Za-z][A-Za-z0-9]*(?:&semi;|&#0*59;|&#[xX]0*3[bB];)`)
+var k19StartRe = regexp.MustCompile(`(?i)<colgroup([ \t\n\f\r]*)>`)
 var k19Re = regexp.MustCompile(`(?i)<colgroup[ \t\n\f\r]*>`)
 var k30Re = regexp.MustCompile(`(?i)\\(?:x3c|u003c|u\{0*3c\})/script`)
 var marqueeRe = regexp.MustCompile(`(?i)(</?)marquee`)
@@ -136,11 +137,20 @@ func label(c *Case, v *vh.Violation, rejudge func(*Case) *vh.Violation) {
 	if structural && !c.Opts.KeepEndTags {
 		with := *c
 		with.Opts.KeepEndTags = true
-		if next, ok := k17Shape(c.Input); ok && (strings.Contains(sig, "in-p") || strings.Contains(sig, "into:p")) && gone(&with) {
+		next, is17 := k17Shape(c.Input)
+		what, is16 := k16Shape(c.Input, c.Opts.KeepComments)
+		if is17 && is16 {
+			if strings.Contains(sig, "in-p") || strings.Contains(sig, "into:p") {
+				is16 = false
+			} else {
+				is17 = false
+			}
+		}
+		if is17 && gone(&with) {
 			v.Signature = "K17:p-endtag-omitted-before:" + next + ":" + sig
 			return
 		}
-		if what, ok := k16Shape(c.Input, c.Opts.KeepComments); ok && gone(&with) {
+		if is16 && gone(&with) {
 			v.Signature = "K16:endtag-omission:" + what + ":" + sig
 			return
 		}
@@ -150,7 +160,7 @@ func label(c *Case, v *vh.Violation, rejudge func(*Case) *vh.Violation) {
 		fixed := *c
 		fixed.Input = k18Re.ReplaceAllStringFunc(c.Input, func(m string) string {
 			i := strings.IndexByte(m[1:], '&') + 1
-			return m[:i] + ";" + m[i:]
+			return m[:i] + " " + m[i:]
 		})
 		fixed.Skeleton = ""
 		if gone(&fixed) {
@@ -158,9 +168,14 @@ func label(c *Case, v *vh.Violation, rejudge func(*Case) *vh.Violation) {
 			return
 		}
 	}
-	if strings.Contains(sig, "colgroup") && k19Re.MatchString(c.Input) {
-		v.Signature = "K19:attributeless-colgroup-tags-dropped:" + sig
-		return
+	if k19Re.MatchString(c.Input) && (structural || strings.HasPrefix(sig, "attr-")) {
+		alt := *c
+		alt.Input = k19StartRe.ReplaceAllString(c.Input, "<colgroup class=k19>")
+		alt.Skeleton = ""
+		if gone(&alt) {
+			v.Signature = "K19:attributeless-colgroup-tags-dropped:" + sig
+			return
+		}
 	}
 	if marqueeRe.MatchString(c.Input) && (strings.HasPrefix(sig, "words-") || strings.HasPrefix(sig, "keep-whitespace:")) {
 		alt := *c
@@ -172,4 +187,92 @@ func label(c *Case, v *vh.Violation, rejudge func(*Case) *vh.Violation) {
 		}
 	}
 	labelNew(c, v, gone)
+	if sigID(v.Signature) == "" {
+		labelCompound(c, v, gone)
+	}
+}
+
+// labelCompound: several known shapes in one (already minimised) input. All applicable counterfactual
+// rewrites are applied together; if the violation disappears the ids of the shapes present are reported.
+func labelCompound(c *Case, v *vh.Violation, gone func(*Case) bool) {
+	t := *c
+	t.Skeleton = ""
+	var ids []string
+	add := func(id string) {
+		for _, x := range ids {
+			if x == id {
+				return
+			}
+		}
+		ids = append(ids, id)
+	}
+	if _, ok := k16Shape(t.Input, t.Opts.KeepComments); ok && !t.Opts.KeepEndTags {
+		t.Opts.KeepEndTags = true
+		add("K16")
+	}
+	if _, ok := k17Shape(t.Input); ok && !c.Opts.KeepEndTags {
+		t.Opts.KeepEndTags = true
+		add("K17")
+	}
+	if k18Re.MatchString(t.Input) {
+		t.Input = k18Re.ReplaceAllStringFunc(t.Input, func(m string) string {
+			i := strings.IndexByte(m[1:], '&') + 1
+			return m[:i] + " " + m[i:]
+		})
+		add("K18")
+	}
+	if k19Re.MatchString(t.Input) {
+		t.Input = k19StartRe.ReplaceAllString(t.Input, "<colgroup class=k19>")
+		add("K19")
+	}
+	if t.Registry == "real" && k30Re.MatchString(t.Input) {
+		t.Registry = "none"
+		add("K30")
+	}
+	if marqueeRe.MatchString(t.Input) {
+		t.Input = marqueeRe.ReplaceAllString(t.Input, "${1}span")
+		add("K39")
+	}
+	if fixed, ok := n01Shape(t.Input); ok {
+		t.Input = fixed
+		add("N01")
+	}
+	if n02Re.MatchString(t.Input) {
+		t.Input = n02Re.ReplaceAllString(t.Input, "<\\${1}${2}")
+		add("N02")
+	}
+	if n04Re.MatchString(t.Input) && t.Registry != "none" {
+		t.Registry = "none"
+		add("N04")
+	}
+	if t.Opts.TemplateDelims && strings.Contains(t.Input, "{{") {
+		t.Opts.TemplateDelims = false
+		add("N05")
+	}
+	if n06Re.MatchString(t.Input) {
+		t.Input = n06Re.ReplaceAllString(t.Input, "${0}x")
+		add("N06")
+	}
+	if n07Re.MatchString(t.Input) {
+		t.Input = n07Re.ReplaceAllString(t.Input, "${0}x")
+		add("N07")
+	}
+	if ampBoilerRe.MatchString(t.Input) {
+		t.Input = ampBoilerRe.ReplaceAllString(t.Input, "data-x")
+		add("N09")
+	}
+	if !t.Opts.KeepDocumentTags && bodyHeadRe.MatchString(t.Input) {
+		t.Opts.KeepDocumentTags = true
+		add("N10")
+	}
+	if t.StubAmp {
+		t.StubAmp = false
+		add("N13")
+	}
+	if len(ids) < 2 {
+		return
+	}
+	if gone(&t) {
+		v.Signature = strings.Join(ids, "+") + ":compound:" + v.Signature
+	}
 }
